@@ -76,6 +76,12 @@ fn supervise(id: &str, tier: &str, replay_json: Option<String>) -> i32 {
     let (code, timed_out) = run_child(replay_json.as_deref(), wall_cap, false);
     let result = match code {
         Some(c) if c == 0 || c == 1 || c == 2 => c,
+        // a panic that escaped to the top of the child is a bug of the harness itself (library
+        // panics are caught around every call into the library): never a verdict
+        Some(101) => {
+            eprintln!("machinery error: the harness panicked (see the 'harness panic' lines above)");
+            2
+        }
         _ => {
             // abnormal end: find the culprit among the cases that were in flight
             let candidates = ev::read_progress(&dir);
@@ -101,7 +107,7 @@ fn supervise(id: &str, tier: &str, replay_json: Option<String>) -> i32 {
                 match cc {
                     Some(0) => {}
                     Some(1) => reported = true,
-                    Some(2) => {}
+                    Some(2) | Some(101) => {}
                     other => confirmed.push((c.clone(), if to { "hang (no result within 120 s)".to_string() } else { format!("process abort ({:?}; stack overflow or fatal runtime error)", other) })),
                 }
             }
